@@ -294,6 +294,73 @@ def o4_3_two_level(mir, tier):
                 ex.run_fn(ops['seek'], [Ref('$it'), Ref('$t')], env1, pc1, done)
             ex.top(ops['seek'], [Ref('$it'), Ref('$t')], env0, pre, second)
             res.absorb(ex); res.cases['unreadable block'] = res.cases.get('unreadable block', 0) + 1
+    # ---- a transient read error while a step crosses into the neighbouring data block (the block is readable again afterwards):
+    # whatever that step reports, a following seek must position the cursor like a fresh iterator would
+    LABEL_RESUME = 'table iterator: after a step failed to load the neighbouring data block (transient read error), a seek does not land on the first entry >= target (entries are skipped or repeated when a scan is resumed)'
+    for shape in [sh for sh in shapes if len(sh) >= 2][:3]:
+        for forward in (True, False):
+            w = World(mir)
+            ents, blocks = [], []
+            for bi, cnt in enumerate(shape):
+                blk = []
+                for j in range(cnt):
+                    i = len(ents); e = (w.key('e%d' % i), BitVec('v%d' % i, 8)); ents.append(e); blk.append(e)
+                blocks.append(blk)
+            KE = [w.K(e[0]) for e in ents]; n = len(ents)
+            pre = list(w.pre) + [klt(KE[i], KE[i + 1]) for i in range(n - 1)]
+            index = [(blk[-1][0], mir.mk_struct('BlockHandle', offset=bv(1000 * bi), size=bv(100))) for bi, blk in enumerate(blocks)]
+            tk = w.key('t'); T = w.K(tk)
+            S = base_summaries(mir)
+            S.update(absiter.summaries(['<BlockIter<InternalKey> as RainDbIterator>::'], w.K))
+            S['BlockReader::iter'] = lambda se, env, pc, r: lib.one(env, dict(absiter.make(se.deref(env, r)['entries']), pos=0))
+            S['<BlockHandle as TryFrom<&Vec<u8>>>::try_from'] = lambda se, env, pc, v: lib.one(env, Enum('Ok', (se.deref(env, v),)))
+            hoff = mir.field('BlockHandle', 'offset')
+            def get_block(se, env, pc, tbl, opts, h, blocks=blocks):
+                j = lib.as_int(se.deref(env, h)[hoff]) // 1000
+                st = env['$state']
+                if st.get('armed'):
+                    return [(None, Enum('Err', (Enum('BlockDecompression', (Opaque('transient read error'),), 'ReadError'),)), dict(st, armed=False, failed=st.get('failed', 0) + 1))]
+                return [(None, Enum('Ok', ({'entries': blocks[j]},)), st)]
+            S['table::Table::get_block_reader'] = get_block; S['Table::get_block_reader'] = get_block
+            S['$patterns'][r'<Arc<BlockReader<InternalKey>> as Deref>::deref'] = lib.ident
+            S['$patterns'][r'<Arc<Table> as Deref>::deref'] = lib.ptr_deref
+            S['$patterns'][r'<RainDBError as From<.*>>::from'] = lambda se, env, pc, e: lib.one(env, Enum('TableRead', (e,), 'RainDBError'))
+            ex = Exec(mir, S, loop_bound=len(shape) + 5, opaque_calls_ok=True)
+            table = mir.mk_struct('Table', index_block={'entries': index}, maybe_filter_block=Enum('None'))
+            it = mir.mk_struct('TwoLevelIterator', table=Ref('$table'), read_options={'abstract': True}, index_block_iter=absiter.make(index),
+                               maybe_data_block_iter=Enum('None'), data_block_handle=Enum('None'))
+            env0 = {'$state': {}, '$t': tk, '$table': table, '$it': it}
+            steps = shape[0] if forward else shape[-1]        # this many steps leave the first (last) block; the last of them loads the neighbour
+            def after_seek(ret, env, pc, ex=ex, KE=KE, ents=ents, n=n, T=T, forward=forward, shape=shape):
+                if env['$state'].get('failed', 0) != 1: return       # the crossing step did not load a block on this path
+                def got_valid(v, env3, pc3):
+                    def got_cur(cur, env4, pc4):
+                        obs = None
+                        if isinstance(cur, Enum) and cur.tag == 'Some':
+                            kv = cur.fields[0]; obs = (w.K(ex.deref(env4, kv[0])), ex.deref(env4, kv[1]))
+                        ex.paths += 1
+                        err = isinstance(ret, Enum) and ret.tag == 'Err'
+                        for sp in range(n + 1):
+                            cond = And(*[klt(KE[j], T) for j in range(sp)], *([Not(klt(KE[sp], T))] if sp < n else []))
+                            if sp == n: ok = And(Not(v), BoolVal(obs is None)) if not isinstance(v, bool) else BoolVal(obs is None and not v)
+                            elif obs is None: ok = BoolVal(False)
+                            else: ok = And(v, keq(obs[0], KE[sp]), obs[0][2] == KE[sp][2], obs[1] == ents[sp][1])
+                            if err: ok = BoolVal(False)
+                            res.checked = getattr(res, 'checked', 0) + 1
+                            ex.record_formula(LABEL_RESUME, pc4 + [cond], Not(ok))
+                            m = ex.model(cond, Not(ok))
+                            if m is not None:
+                                res.violations.append({'label': LABEL_RESUME, 'shape': list(shape), 'direction': 'forward' if forward else 'backward', 'replay': ['iter_resume_after_read_fault']}); return
+                    ex.run_fn(ops['current'], [Ref('$it')], env3, pc3, got_cur)
+                ex.run_fn(ops['is_valid'], [Ref('$it')], env, pc, got_valid)
+            def step(i, env, pc, ex=ex, steps=steps, forward=forward):
+                if i == steps:
+                    return ex.run_fn(ops['seek'], [Ref('$it'), Ref('$t')], env, pc, after_seek)
+                e = dict(env)
+                if i == steps - 1: e['$state'] = dict(e['$state'], armed=True)
+                ex.run_fn(ops['next' if forward else 'prev'], [Ref('$it')], e, pc, lambda r, e2, p2: step(i + 1, e2, p2))
+            ex.top(ops['seek_to_first' if forward else 'seek_to_last'], [Ref('$it')], env0, pre, lambda r, e, p: step(0, e, p))
+            res.absorb(ex); res.cases['transient read error at a block crossing'] = res.cases.get('transient read error at a block crossing', 0) + 1
     res.wall_s = time.time() - t0
     if res.violations: res.status = 'violation'
     return res
@@ -315,6 +382,10 @@ def _table_iter_ref(argv):
 
 
 def o4_3_confirm(v, out):
+    if v['replay'][0] == 'iter_resume_after_read_fault':
+        if out.get('_rc') != 0: return (True, 'native scan panicked / failed: %s' % out.get('_stderr', '')[-300:])
+        return (out.get('bad', '0') != '0', 'native: forward and backward scans over a 300-key table resumed with seek after every failed block load (%s faults): %s resumed scans lose their place (first: %s)'
+                % (out.get('faults_injected'), out.get('bad'), out.get('first_bad')))
     if v['replay'][0] == 'table_seek_corrupt':
         if out.get('_rc') != 0: return (False, 'native run failed: %s' % out.get('_stderr', '')[-300:])
         bad = out.get('first_seek') == 'ok' or out.get('second_seek') == 'ok'
